@@ -454,12 +454,12 @@ theorem addChar_inv (b b' : WB) (m : WS) (mt wt : Tag) (cur cur' : Bool) (c : Ch
   unfold WB.addChar at h
   simp only at h
   -- the optional flush
-  generalize hr : (if (c.ws && decide (b.wordlen > 0)) = true then b.flushWord m else Except.ok b) = r at h
+  generalize hr : (if (c.ws && !b.word.noContent) = true then b.flushWord m else Except.ok b) = r at h
   cases r with
   | error e => simp at h
   | ok b1 =>
     have hb1 : b1.Inv ∧ Same b b1 := by
-      by_cases hf : (c.ws && decide (b.wordlen > 0)) = true
+      by_cases hf : (c.ws && !b.word.noContent) = true
       · simp only [hf, if_true] at hr; exact flushWord_inv b b1 m hi hr
       · simp only [hf] at hr; injection hr with hr; subst hr; exact ⟨hi, Same.refl b⟩
     obtain ⟨i1, s1⟩ := hb1
